@@ -182,3 +182,71 @@ theorem decode_cases (b0 : UInt8) (rest : Bytes) :
   · left; simp [decodeRune, c1, c2, c3, c4, c5]; omega
 
 end Elk.Utf8
+
+namespace Elk.Utf8
+
+/-! ### decoding whole strings -/
+
+theorem pieces_nil : pieces [] = [] := by rw [pieces]
+
+theorem pieces_cons (b : UInt8) (rest : Bytes) :
+    pieces (b :: rest) = decodeRune (b :: rest) :: pieces ((b :: rest).drop (decodeRune (b :: rest)).2) := by
+  rw [pieces]
+
+theorem encodeRune_ne_nil (r : Nat) : encodeRune r ≠ [] := by
+  unfold encodeRune; repeat' split
+  all_goals simp
+
+/-- the decoder sees an encoded scalar value as one piece, whatever follows -/
+theorem pieces_encode_append (r : Nat) (hv : ValidScalar r) (rest : Bytes) :
+    pieces (encodeRune r ++ rest) = (r, (encodeRune r).length) :: pieces rest := by
+  cases he : encodeRune r with
+  | nil => exact absurd he (encodeRune_ne_nil r)
+  | cons b t =>
+    have hd := decode_encode r hv rest
+    rw [he, List.cons_append] at hd
+    rw [List.cons_append, pieces_cons, hd]
+    have : (b :: (t ++ rest)).drop (b :: t).length = rest := by
+      rw [← List.cons_append, List.drop_left]
+    rw [this]
+
+/-- what `WriteRune` writes for any Go rune is the encoding of a scalar value -/
+theorem encodeRuneInt_scalar (c : Int) : ∃ r, ValidScalar r ∧ encodeRuneInt c = encodeRune r := by
+  unfold encodeRuneInt
+  by_cases h : c < 0
+  · exact ⟨0xFFFD, by unfold ValidScalar; omega, by simp [h, encodeRune, byte]⟩
+  · simp only [h, if_false]
+    by_cases hv : ValidScalar c.toNat
+    · exact ⟨c.toNat, hv, rfl⟩
+    · refine ⟨0xFFFD, by unfold ValidScalar; omega, ?_⟩
+      unfold ValidScalar at hv
+      have h1 : ¬ c.toNat < 0x80 := by omega
+      have h2 : ¬ c.toNat < 0x800 := by omega
+      have h3 : (0xD800 ≤ c.toNat ∧ c.toNat ≤ 0xDFFF) ∨ 0x10FFFF < c.toNat := by omega
+      unfold encodeRune
+      rw [if_neg h1, if_neg h2, if_pos h3]
+      decide
+
+/-- decoding a concatenation of encoded scalar values gives the scalar values back -/
+theorem runes_flatten_encode (rs : List Nat) (hv : ∀ r ∈ rs, ValidScalar r) (rest : Bytes) :
+    pieces ((rs.map encodeRune).flatten ++ rest) = rs.map (fun r => (r, (encodeRune r).length)) ++ pieces rest := by
+  induction rs with
+  | nil => simp
+  | cons r t ih =>
+    simp only [List.map_cons, List.flatten_cons, List.append_assoc]
+    rw [pieces_encode_append r (hv r (by simp)), ih (fun x hx => hv x (by simp [hx]))]
+    simp
+
+/-- a string whose first piece is valid decodes the same way when something is appended -/
+theorem decodeRune_append_valid (b : UInt8) (rest more : Bytes)
+    (hvalid : ¬ (decodeRune (b :: rest) = (runeError, 1) ∧ 0x80 ≤ b.toNat)) :
+    decodeRune (b :: rest ++ more) = decodeRune (b :: rest) := by
+  rcases decode_cases b rest with h | ⟨hv, henc, hlen⟩
+  · exact absurd h hvalid
+  · have hsplit : b :: rest = encodeRune (decodeRune (b :: rest)).1 ++ (b :: rest).drop (decodeRune (b :: rest)).2 := by
+      rw [henc, List.take_append_drop]
+    have : b :: rest ++ more = encodeRune (decodeRune (b :: rest)).1 ++ ((b :: rest).drop (decodeRune (b :: rest)).2 ++ more) := by
+      rw [← List.append_assoc, ← hsplit]
+    rw [this, decode_encode _ hv, ← hlen]
+
+end Elk.Utf8
